@@ -63,7 +63,7 @@ class JsonParser(object):
         tags = json_feature.get("tags", [])
         description = json_feature.get("description", [])
         location = json_feature.get("location", u"")
-        filename, line = location.split(":")
+        filename, line = self.parse_location(location)
         feature = model.Feature(filename, line, keyword, name, tags, description)
 
         json_elements = json_feature.get("elements", [])
@@ -105,7 +105,7 @@ class JsonParser(object):
         location = json_element.get("location", u"")
         json_steps = json_element.get("steps", [])
         steps = self.parse_steps(json_steps)
-        filename, line = location.split(":")
+        filename, line = self.parse_location(location)
         background = model.Background(filename, line, keyword, name, steps)
         return background
 
@@ -126,7 +126,7 @@ class JsonParser(object):
         location = json_element.get("location", u"")
         json_steps = json_element.get("steps", [])
         steps = self.parse_steps(json_steps)
-        filename, line = location.split(":")
+        filename, line = self.parse_location(location)
         scenario = model.Scenario(filename, line, keyword, name, tags, steps)
         scenario.description = description
         return scenario
@@ -154,7 +154,7 @@ class JsonParser(object):
         if json_examples:
             # pylint: disable=redefined-variable-type
             examples = self.parse_examples(json_examples)
-        filename, line = location.split(":")
+        filename, line = self.parse_location(location)
         scenario_outline = model.ScenarioOutline(filename, line, keyword, name,
                                                  tags=tags, steps=steps,
                                                  examples=examples)
@@ -195,7 +195,7 @@ class JsonParser(object):
         json_table = json_element.get("table", None)
         if json_table:
             table = self.parse_table(json_table)
-        filename, line = location.split(":")
+        filename, line = self.parse_location(location)
         step = model.Step(filename, line, keyword, step_type, name)
         step.text = text
         step.table = table
@@ -221,6 +221,12 @@ class JsonParser(object):
         step.status = Status.from_name(status_name)
         step.duration = duration
         step.error_message = error_message
+
+    @staticmethod
+    def parse_location(location):
+        """Split a location "{filename}:{line}" into filename and line number."""
+        filename, line = location.rsplit(":", 1)
+        return filename, int(line)
 
     @staticmethod
     def parse_table(json_table):
@@ -259,6 +265,6 @@ class JsonParser(object):
         json_table = json_element.get("table", None)
         if json_table:
             table = self.parse_table(json_table)
-        filename, line = location.split(":")
+        filename, line = self.parse_location(location)
         examples = model.Examples(filename, line, keyword, name, table)
         return examples
